@@ -2,6 +2,7 @@ package mon
 
 import (
 	"fmt"
+	"math"
 	"reflect"
 	"sort"
 
@@ -390,7 +391,7 @@ func runC15(c *core.Ctx) {
 			if cfg.Name == "ISM2400" {
 				step = 200
 			}
-			weird := []int{-1, -2, -1 << 31, 1 << 31, 1<<62 - 1, -(1 << 62)}
+			weird := []int{-1, -2, math.MinInt32, math.MaxInt32, math.MaxInt - 1, math.MinInt + 2, math.MaxInt/2 + 1} // (word-size independent spelling: the harness also runs as a 32-bit binary)
 			good := true
 			for s := 0; s < steps && good; s++ {
 				kind := ""
